@@ -1,0 +1,315 @@
+//! Verification hooks for the character-wise automaton.
+//!
+//! This module only exists under `--cfg daachorse_verif`. It adds no behaviour: it names private
+//! items so that an external checker can build an automaton from raw table words, read the
+//! tables back, and call the crate's own transition functions on an arbitrary state.
+
+use core::num::NonZeroU32;
+
+use alloc::vec::Vec;
+
+use super::iter::{
+    CharWithEndOffsetIterator, FindOverlappingIterator, FindOverlappingNoSuffixIterator,
+};
+use super::mapper::CodeMapper;
+use super::{CharwiseDoubleArrayAhoCorasick, State};
+use crate::serializer::{Serializable, SerializableVec};
+use crate::{MatchKind, Output};
+
+/// Transparent wrapper of the private `State`.
+#[derive(Clone, Copy, PartialEq, Eq)]
+#[repr(transparent)]
+pub struct VState(State);
+
+/// Transparent wrapper of the private `Output`.
+#[derive(Clone, Copy, PartialEq, Eq)]
+#[repr(transparent)]
+pub struct VOutput<V>(Output<V>);
+
+/// Wrapper of the private `CodeMapper`.
+#[derive(Clone, PartialEq, Eq)]
+pub struct VMapper(CodeMapper);
+
+pub const fn state(base: u32, check: u32, fail: u32, output_pos: u32) -> VState {
+    VState(State {
+        base: NonZeroU32::new(base),
+        check,
+        fail,
+        output_pos: NonZeroU32::new(output_pos),
+    })
+}
+
+pub const fn output<V: Copy>(value: V, length: u32, parent: u32) -> VOutput<V> {
+    VOutput(Output {
+        value,
+        length,
+        parent: NonZeroU32::new(parent),
+    })
+}
+
+fn cast<A, B>(v: Vec<A>) -> Vec<B> {
+    debug_assert!(core::mem::size_of::<A>() == core::mem::size_of::<B>());
+    debug_assert!(core::mem::align_of::<A>() == core::mem::align_of::<B>());
+    let mut v = core::mem::ManuallyDrop::new(v);
+    unsafe { Vec::from_raw_parts(v.as_mut_ptr().cast::<B>(), v.len(), v.capacity()) }
+}
+
+pub fn mapper_from_raw(table: Vec<u32>, alphabet_size: u32) -> VMapper {
+    VMapper(CodeMapper::verif_from_raw(table, alphabet_size))
+}
+
+/// The real constructor.
+pub fn mapper_new(freqs: &[u32]) -> VMapper {
+    VMapper(CodeMapper::new(freqs))
+}
+
+pub fn mapper_get(m: &VMapper, c: char) -> Option<u32> {
+    m.0.get(c)
+}
+
+pub fn mapper_raw(m: &VMapper) -> (&[u32], u32) {
+    m.0.verif_raw()
+}
+
+pub fn mapper_alphabet_size(m: &VMapper) -> u32 {
+    m.0.alphabet_size()
+}
+
+pub fn mapper_serialize(m: &VMapper, dst: &mut Vec<u8>) -> usize {
+    m.0.serialize_to_vec(dst);
+    m.0.serialized_bytes()
+}
+
+pub fn mapper_deserialize(src: &[u8]) -> (VMapper, &[u8]) {
+    let (m, rest) = CodeMapper::deserialize_from_slice(src);
+    (VMapper(m), rest)
+}
+
+pub fn from_raw<V>(
+    states: Vec<VState>,
+    mapper: VMapper,
+    outputs: Vec<VOutput<V>>,
+    match_kind: MatchKind,
+    num_states: u32,
+) -> CharwiseDoubleArrayAhoCorasick<V> {
+    CharwiseDoubleArrayAhoCorasick {
+        states: cast(states),
+        mapper: mapper.0,
+        outputs: cast(outputs),
+        match_kind,
+        num_states,
+    }
+}
+
+/// Raw copy of the tables: per state `[base, check, fail, output_pos]`, the mapper table and
+/// alphabet size, per output `(value, length, parent)`, the match kind and the state counter.
+#[allow(clippy::type_complexity)]
+pub fn raw<V: Copy>(
+    pma: &CharwiseDoubleArrayAhoCorasick<V>,
+) -> (
+    Vec<[u32; 4]>,
+    (Vec<u32>, u32),
+    Vec<(V, u32, u32)>,
+    MatchKind,
+    u32,
+) {
+    let (table, alphabet_size) = pma.mapper.verif_raw();
+    (
+        pma.states
+            .iter()
+            .map(|s| state_words(&VState(*s)))
+            .collect(),
+        (table.to_vec(), alphabet_size),
+        pma.outputs
+            .iter()
+            .map(|o| output_fields(&VOutput(*o)))
+            .collect(),
+        pma.match_kind,
+        pma.num_states,
+    )
+}
+
+pub fn num_slots<V>(pma: &CharwiseDoubleArrayAhoCorasick<V>) -> usize {
+    pma.states.len()
+}
+
+pub fn num_outputs<V>(pma: &CharwiseDoubleArrayAhoCorasick<V>) -> usize {
+    pma.outputs.len()
+}
+
+pub fn match_kind<V>(pma: &CharwiseDoubleArrayAhoCorasick<V>) -> MatchKind {
+    pma.match_kind
+}
+
+pub fn slot<V>(pma: &CharwiseDoubleArrayAhoCorasick<V>, i: usize) -> VState {
+    VState(pma.states[i])
+}
+
+pub fn out<V: Copy>(pma: &CharwiseDoubleArrayAhoCorasick<V>, i: usize) -> VOutput<V> {
+    VOutput(pma.outputs[i])
+}
+
+pub fn map_char<V>(pma: &CharwiseDoubleArrayAhoCorasick<V>, c: char) -> Option<u32> {
+    pma.mapper.get(c)
+}
+
+/// # Safety
+///
+/// Same contract as the private function it forwards to.
+pub unsafe fn child<V>(
+    pma: &CharwiseDoubleArrayAhoCorasick<V>,
+    s: u32,
+    mapped_c: u32,
+) -> Option<u32> {
+    pma.child_index_unchecked(s, mapped_c)
+}
+
+/// # Safety
+///
+/// Same contract as the private function it forwards to.
+pub unsafe fn next_state<V>(pma: &CharwiseDoubleArrayAhoCorasick<V>, s: u32, c: char) -> u32 {
+    pma.next_state_id_unchecked(s, c)
+}
+
+/// # Safety
+///
+/// Same contract as the private function it forwards to.
+pub unsafe fn next_state_leftmost<V>(
+    pma: &CharwiseDoubleArrayAhoCorasick<V>,
+    s: u32,
+    c: char,
+) -> u32 {
+    pma.next_state_id_leftmost_unchecked(s, c)
+}
+
+pub fn state_words(s: &VState) -> [u32; 4] {
+    [
+        s.0.base.map_or(0, NonZeroU32::get),
+        s.0.check,
+        s.0.fail,
+        s.0.output_pos.map_or(0, NonZeroU32::get),
+    ]
+}
+
+/// `(base, check, fail, output_pos)` through the real accessors.
+pub fn state_fields(s: &VState) -> (u32, u32, u32, u32) {
+    (
+        s.0.base().map_or(0, NonZeroU32::get),
+        s.0.check(),
+        s.0.fail(),
+        s.0.output_pos().map_or(0, NonZeroU32::get),
+    )
+}
+
+/// `(value, length, parent)` through the real accessors.
+pub fn output_fields<V: Copy>(o: &VOutput<V>) -> (V, u32, u32) {
+    (
+        o.0.value(),
+        o.0.length(),
+        o.0.parent().map_or(0, NonZeroU32::get),
+    )
+}
+
+/// # Safety
+///
+/// `haystack` must be valid UTF-8.
+pub unsafe fn overlapping_at<P: Iterator<Item = u8>, V>(
+    pma: &CharwiseDoubleArrayAhoCorasick<V>,
+    haystack: P,
+    state_id: u32,
+    pos: usize,
+    output_pos: u32,
+) -> FindOverlappingIterator<'_, P, V> {
+    FindOverlappingIterator {
+        pma,
+        haystack: CharWithEndOffsetIterator::new(haystack),
+        state_id,
+        pos,
+        output_pos: NonZeroU32::new(output_pos),
+    }
+}
+
+pub fn overlapping_state<P, V>(it: &FindOverlappingIterator<'_, P, V>) -> (u32, usize, u32) {
+    (
+        it.state_id,
+        it.pos,
+        it.output_pos.map_or(0, NonZeroU32::get),
+    )
+}
+
+/// # Safety
+///
+/// `haystack` must be valid UTF-8.
+pub unsafe fn no_suffix_at<P: Iterator<Item = u8>, V>(
+    pma: &CharwiseDoubleArrayAhoCorasick<V>,
+    haystack: P,
+    state_id: u32,
+) -> FindOverlappingNoSuffixIterator<'_, P, V> {
+    FindOverlappingNoSuffixIterator {
+        pma,
+        haystack: CharWithEndOffsetIterator::new(haystack),
+        state_id,
+    }
+}
+
+pub fn no_suffix_state<P, V>(it: &FindOverlappingNoSuffixIterator<'_, P, V>) -> u32 {
+    it.state_id
+}
+
+pub fn leftmost_pos<P, V>(it: &super::iter::LestmostFindIterator<'_, P, V>) -> usize {
+    it.pos
+}
+
+// Serialization of the private component types.
+
+pub fn state_serialize(s: &VState, dst: &mut Vec<u8>) {
+    s.0.serialize_to_vec(dst);
+}
+
+pub fn state_deserialize(src: &[u8]) -> (VState, &[u8]) {
+    let (s, rest) = State::deserialize_from_slice(src);
+    (VState(s), rest)
+}
+
+pub fn state_serialized_bytes() -> usize {
+    State::serialized_bytes()
+}
+
+/// `set_*` through the real mutators on a default state.
+pub fn state_via_setters(base: u32, check: u32, fail: u32, output_pos: u32) -> VState {
+    let mut s = State::default();
+    if let Some(b) = NonZeroU32::new(base) {
+        s.set_base(b);
+    }
+    s.set_check(check);
+    s.set_fail(fail);
+    s.set_output_pos(NonZeroU32::new(output_pos));
+    VState(s)
+}
+
+pub fn states_serialize(v: Vec<VState>, dst: &mut Vec<u8>) -> (Vec<VState>, usize) {
+    let v: Vec<State> = cast(v);
+    v.serialize_to_vec(dst);
+    let n = v.serialized_bytes();
+    (cast(v), n)
+}
+
+pub fn states_deserialize(src: &[u8]) -> (Vec<VState>, &[u8]) {
+    let (v, rest) = Vec::<State>::deserialize_from_slice(src);
+    (cast(v), rest)
+}
+
+pub fn outputs_serialize<V: Serializable>(
+    v: Vec<VOutput<V>>,
+    dst: &mut Vec<u8>,
+) -> (Vec<VOutput<V>>, usize) {
+    let v: Vec<Output<V>> = cast(v);
+    v.serialize_to_vec(dst);
+    let n = v.serialized_bytes();
+    (cast(v), n)
+}
+
+pub fn outputs_deserialize<V: Serializable>(src: &[u8]) -> (Vec<VOutput<V>>, &[u8]) {
+    let (v, rest) = Vec::<Output<V>>::deserialize_from_slice(src);
+    (cast(v), rest)
+}
